@@ -12,7 +12,17 @@ var VerifReceive func(w *Writer, r *Reader, pck *Packet) func()
 // generation the response carries (the generation of the reader's link when the request was written).
 var VerifReceiveLink func(w *Writer, r *Reader, pck *Packet, link uint64) func()
 
-func verifReceive(w *Writer, r *Reader, pck *Packet, link uint64) func() {
+// VerifReceiveWrite, when set, is called instead of the two hooks above and is also told the number
+// of the write the response belongs to.
+var VerifReceiveWrite func(w *Writer, r *Reader, pck *Packet, link uint64, write uint64) func()
+
+func verifReceive(w *Writer, r *Reader, pck *Packet, link uint64, write uint64) func() {
+	if h := VerifReceiveWrite; h != nil {
+		if after := h(w, r, pck, link, write); after != nil {
+			return after
+		}
+		return func() {}
+	}
 	if h := VerifReceiveLink; h != nil {
 		if after := h(w, r, pck, link); after != nil {
 			return after
